@@ -762,3 +762,11 @@ V("getsolution-offset-by-domain-index", "break", ["C01", "C13", "C16"], "nucs/so
 V("decrease-max-index-in-local-neutral", "neutral", ["C01", "C03", "C13", "C16"], "nucs/solvers/solver.py", None, None, "the shared-domain index held in a local",
   within="def decrease_max", edits=[{"old": "    shr_domains_stack[stacks_top[0], dom_indices_arr[var_idx], MAX] = value - 1 - dom_offsets_arr[var_idx]\n",
                                      "new": "    shr_dom = dom_indices_arr[var_idx]\n    shr_domains_stack[stacks_top[0], shr_dom, MAX] = value - 1 - dom_offsets_arr[var_idx]\n"}])
+V("bc-writeback-skips-instantiated", "break", ["C01", "C02", "C08", "C13"], BC,
+  "            events = 0\n            shr_domain_min = prop_domains[var_idx, MIN]",
+  "            if shr_domains_stack[top, shr_domain_idx, MIN] == shr_domains_stack[top, shr_domain_idx, MAX]:\n                continue\n            events = 0\n            shr_domain_min = prop_domains[var_idx, MIN]",
+  "the write-back skips instantiated shared domains: an emptying second view of the same domain is never noticed", "bound_consistency_algorithm")
+V("bc-writeback-skips-unchanged-neutral", "neutral", ["C01", "C02", "C08", "C13", "C04"], BC,
+  "            events = 0\n            shr_domain_min = prop_domains[var_idx, MIN]",
+  "            if shr_domains_stack[top, shr_domain_idx, MIN] >= prop_domains[var_idx, MIN] - prop_offsets[var_idx, 0] and shr_domains_stack[top, shr_domain_idx, MAX] <= prop_domains[var_idx, MAX] - prop_offsets[var_idx, 0]:\n                continue\n            events = 0\n            shr_domain_min = prop_domains[var_idx, MIN]",
+  "the write-back skips a position whose view brings nothing (both bounds compared)")
